@@ -3,7 +3,7 @@ from __future__ import annotations
 
 from .. import models as M
 from .. import rulespace as RS
-from ..drive import eval_rule, make_evaluable
+from ..drive import eval_rule, make_evaluable, reuse_aware, warmup
 
 ID = "C01"
 MOD = __name__
@@ -24,9 +24,10 @@ ASSUMPTIONS = [
 ]
 
 
-def check_pair(tree, imports, rule, ev) -> dict:
+def check_pair(tree, imports, rule, ev, impl_rule=None) -> dict:
+    """rule: what the reference model judges; impl_rule (default: the same) is what the implementation is given."""
     an = M.rule_analysis(tree, imports, rule)
-    kind, msg = eval_rule(rule, ev)
+    kind, msg = eval_rule(impl_rule or rule, ev)
     shape = RS.shape_name(rule)
     viols = []
     multi_any = rule.get("anything") and len(rule["subj"]["names"]) > 1
@@ -66,10 +67,14 @@ def check_pair(tree, imports, rule, ev) -> dict:
     return {"violations": viols, "nontrivial": touched, "labels": labels}
 
 
+@reuse_aware
 def check_case(spec: dict) -> dict:
     tree, imports, rule = spec["tree"], [tuple(e) for e in spec["imports"]], spec["rule"]
     ev = make_evaluable(tree, imports)
-    return check_pair(tree, imports, rule, ev)
+    res = check_pair(tree, imports, spec.get("model_rule", rule), ev, rule)
+    if "model_rule" in spec:
+        res["labels"].append("regex-form-of-a-named-side")
+    return res
 
 
 def exh_shard(arg, st, deadline) -> None:
@@ -84,14 +89,20 @@ def exh_shard(arg, st, deadline) -> None:
             return
         i += 1
         ev = make_evaluable(tree, imports)
-        for rule in rules:
-            spec = {"tree": tree, "imports": imports, "rule": rule}
-            res = check_pair(tree, imports, rule, ev)
-            if res["violations"]:
-                res["labels"] = res["labels"][:1] + ["oracle=disagree"]
-            else:
-                res["labels"] = [res["labels"][0], res["labels"][3]]
-            st.record(spec, res, enumerated=True, sample=(i % 97 == 5))
+        # every 8th import relation: each rule object is applied to a second architecture first (re-use must not matter)
+        warm = RS.T4_DECOY if (i % 8 == 3 and tkey == "T4") else None
+        with warmup(warm):
+            for rule in rules:
+                spec = {"tree": tree, "imports": imports, "rule": rule}
+                res = check_pair(tree, imports, rule, ev)
+                if res["violations"]:
+                    res["labels"] = res["labels"][:1] + ["oracle=disagree"]
+                else:
+                    res["labels"] = [res["labels"][0], res["labels"][3]]
+                if warm:
+                    spec["warm"] = warm
+                    res["labels"].append("reused-rule-object")
+                st.record(spec, res, enumerated=True, sample=(i % 97 == 5))
 
 
 def strategy(tier):
